@@ -50,13 +50,17 @@ Proof.
   intros r o Hin Hr. apply (store_batch_others s [m] s1 a1 E1 r o); [|exact Hr]. apply (IH s1 s2 a2 E2 r o Hin Hr).
 Qed.
 
+Lemma publish_step_others s ms s' out : publish_step s ms = (s', out) -> others_kept s s'.
+Proof.
+  unfold publish_step. intros H. destruct (l_cc s).
+  + destruct (store_each s _) as [s1 acks] eqn:Es. injection H as <- <-. apply (store_each_others _ _ _ _ Es).
+  + destruct (store_batch s _) as [s1 acks] eqn:Es. injection H as <- <-. apply (store_batch_others _ _ _ _ Es).
+Qed.
+
 Theorem step_believes s g x s' out : Believes s g -> step s x = (s', out) -> Believes s' (gstep g x).
 Proof.
-  intros HB H. destruct x as [ms|r0 o0|r0|r0|keep foreign hw]; cbn [step gstep] in *.
-  - assert (K : others_kept s s').
-    { destruct (l_cc s).
-      + destruct (store_each s _) as [s1 acks] eqn:Es. injection H as <- <-. apply (store_each_others _ _ _ _ Es).
-      + destruct (store_batch s _) as [s1 acks] eqn:Es. injection H as <- <-. apply (store_batch_others _ _ _ _ Es). }
+  intros HB H. destruct x as [ms|r0 o0|r0|r0|keep foreign hw|ms]; cbn [step gstep] in *.
+  - pose proof (publish_step_others s ms s' out H) as K.
     intros r o Hin Hr. apply HB; [apply K; assumption|exact Hr].
   - destruct (existsb (N.eqb r0) (l_replicas s) && negb (N.eqb r0 0)).
     + intros r o Hin Hr. pose proof (commit_others _ _ _ H r o Hin Hr) as H1. cbn [l_isr] in H1. rewrite told_cons.
@@ -69,6 +73,8 @@ Proof.
     intros r o Hin Hr. cbn [l_isr] in Hin. apply in_app_or in Hin. destruct Hin as [Hin|[[= <- <-]|[]]]; [apply HB; assumption|apply told_ge].
   - injection H as <- <-. intros r o Hin Hr. cbn [l_isr] in Hin. apply in_map_iff in Hin. destruct Hin as ([r1 o1] & [= <- <-] & _). cbn [fst].
     destruct (N.eqb_spec r1 0) as [->|_]; [contradiction|]. cbn [told fold_right]. lia.
+  - destruct (publish_step s (filter (fun m => negb (api_refuses s m)) ms)) as [s1 o1] eqn:Ep. injection H as <- <-.
+    pose proof (publish_step_others s _ s1 o1 Ep) as K. intros r o Hin Hr. apply HB; [apply K; assumption|exact Hr].
 Qed.
 
 (* an ALL-policy acknowledgement: every in-sync replica other than the leader has itself
